@@ -44,10 +44,10 @@ CONSTANTS Dims,          \* dimension names
           Script,        \* scripted prefix: sequence of op records executed first
           Mut            \* set of named deviations (defects repaired in the code) re-enabled for self-tests
 
-VARIABLES st, msk, nsid, nid, mpks, usk, users, nuid, encs, res, lnk, idu, g, bad, last, pc, obs
-vars == <<st, msk, nsid, nid, mpks, usk, users, nuid, encs, res, lnk, idu, g, bad, last, pc, obs>>
+VARIABLES st, msk, nsid, nid, mpks, usk, users, nuid, encs, res, lnk, idu, g, bad, last, pc, obs, saved
+vars == <<st, msk, nsid, nid, mpks, usk, users, nuid, encs, res, lnk, idu, g, bad, last, pc, obs, saved>>
 \* what distinguishes states: not the result / description of the last call
-view == <<st, msk, nsid, nid, mpks, usk, users, nuid, encs, lnk, idu, g, bad, pc>>
+view == <<st, msk, nsid, nid, mpks, usk, users, nuid, encs, lnk, idu, g, bad, pc, saved>>
 On(a) == pc <= Len(Script) \/ a \in Ops
 
 (***************************************************************************)
@@ -141,6 +141,7 @@ Init ==
     /\ last = [op |-> "init"]
     /\ pc = 1
     /\ obs = {}
+    /\ saved = <<>>
 
 (***************************************************************************)
 (* Ghost coupling: verdict of the reference spec vs result of the model    *)
@@ -161,20 +162,20 @@ AddDimA(d) ==
     /\ last' = [op |-> "add_dim", d |-> d, kind |-> Kind[d]]
     /\ IF d \in DOMAIN st
        THEN /\ Couple(AddDimV(g, d), "err", g, {"C09"})
-            /\ UNCHANGED <<st, msk, nsid, nid, mpks, usk, users, nuid, encs, lnk, idu>>
+            /\ UNCHANGED <<st, msk, nsid, nid, mpks, usk, users, nuid, encs, lnk, idu, saved>>
        ELSE /\ st' = st @@ (d :> [kind |-> Kind[d], attrs |-> <<>>])
             /\ Couple(AddDimV(g, d), "ok", AddDim(g, d, Kind[d]), {"C09"})
-            /\ UNCHANGED <<msk, nsid, nid, mpks, usk, users, nuid, encs, lnk, idu>>
+            /\ UNCHANGED <<msk, nsid, nid, mpks, usk, users, nuid, encs, lnk, idu, saved>>
 
 DelDimA(d) ==
     /\ On("DelDim")
     /\ last' = [op |-> "del_dim", d |-> d]
     /\ IF d \notin DOMAIN st
        THEN /\ Couple(DelDimV(g, d), "err", g, {"C09"})
-            /\ UNCHANGED <<st, msk, nsid, nid, mpks, usk, users, nuid, encs, lnk, idu>>
+            /\ UNCHANGED <<st, msk, nsid, nid, mpks, usk, users, nuid, encs, lnk, idu, saved>>
        ELSE /\ st' = Without(st, {d})
             /\ Couple(DelDimV(g, d), "ok", DelDim(g, d), {"C09"})
-            /\ UNCHANGED <<msk, nsid, nid, mpks, usk, users, nuid, encs, lnk, idu>>
+            /\ UNCHANGED <<msk, nsid, nid, mpks, usk, users, nuid, encs, lnk, idu, saved>>
 
 \* after = "" : no `after` argument
 AddAttrA(d, n, h, after) ==
@@ -186,7 +187,7 @@ AddAttrA(d, n, h, after) ==
                     \/ (st[d].kind = "H" /\ after # "" /\ Find(st[d].attrs, after) = 0)
        IN IF fails
           THEN /\ Couple(v, "err", g, {"C09"})
-               /\ UNCHANGED <<st, msk, nsid, nid, mpks, usk, users, nuid, encs, lnk, idu>>
+               /\ UNCHANGED <<st, msk, nsid, nid, mpks, usk, users, nuid, encs, lnk, idu, saved>>
           ELSE LET id == IF IdFromCount THEN LiveCount(st) ELSE nid
                    s == st[d].attrs
                    p == IF st[d].kind = "H" THEN (IF after = "" THEN 1 ELSE Find(s, after) + 1) ELSE Len(s) + 1
@@ -195,37 +196,37 @@ AddAttrA(d, n, h, after) ==
                   /\ nid' = nid + 1
                   /\ idu' = idu @@ (g.nextUid :> id)
                   /\ Couple(v, "ok", AddAttr(g, d, n, h, after), {"C09"})
-                  /\ UNCHANGED <<msk, nsid, mpks, usk, users, nuid, encs, lnk>>
+                  /\ UNCHANGED <<msk, nsid, mpks, usk, users, nuid, encs, lnk, saved>>
 
 DelAttrA(d, n) ==
     /\ On("DelAttr")
     /\ last' = [op |-> "del_attr", d |-> d, n |-> n]
     /\ IF d \notin DOMAIN st \/ Find(st[d].attrs, n) = 0
        THEN /\ Couple(DelAttrV(g, d, n), "err", g, {"C09"})
-            /\ UNCHANGED <<st, msk, nsid, nid, mpks, usk, users, nuid, encs, lnk, idu>>
+            /\ UNCHANGED <<st, msk, nsid, nid, mpks, usk, users, nuid, encs, lnk, idu, saved>>
        ELSE /\ st' = [st EXCEPT ![d].attrs = RemoveAt(@, Find(@, n))]
             /\ Couple(DelAttrV(g, d, n), "ok", DelAttr(g, d, n), {"C09"})
-            /\ UNCHANGED <<msk, nsid, nid, mpks, usk, users, nuid, encs, lnk, idu>>
+            /\ UNCHANGED <<msk, nsid, nid, mpks, usk, users, nuid, encs, lnk, idu, saved>>
 
 RenameA(d, n, to) ==
     /\ On("Rename")
     /\ last' = [op |-> "rename", d |-> d, n |-> n, to |-> to]
     /\ IF d \notin DOMAIN st \/ Find(st[d].attrs, n) = 0 \/ Find(st[d].attrs, to) # 0
        THEN /\ Couple(RenameV(g, d, n, to), "err", g, {"C09"})
-            /\ UNCHANGED <<st, msk, nsid, nid, mpks, usk, users, nuid, encs, lnk, idu>>
+            /\ UNCHANGED <<st, msk, nsid, nid, mpks, usk, users, nuid, encs, lnk, idu, saved>>
        ELSE /\ st' = [st EXCEPT ![d].attrs[Find(st[d].attrs, n)].n = to]
             /\ Couple(RenameV(g, d, n, to), "ok", Rename(g, d, n, to), {"C09"})
-            /\ UNCHANGED <<msk, nsid, nid, mpks, usk, users, nuid, encs, lnk, idu>>
+            /\ UNCHANGED <<msk, nsid, nid, mpks, usk, users, nuid, encs, lnk, idu, saved>>
 
 DisableA(d, n) ==
     /\ On("Disable")
     /\ last' = [op |-> "disable", d |-> d, n |-> n]
     /\ IF d \notin DOMAIN st \/ Find(st[d].attrs, n) = 0
        THEN /\ Couple(DisableV(g, d, n), "err", g, {"C09"})
-            /\ UNCHANGED <<st, msk, nsid, nid, mpks, usk, users, nuid, encs, lnk, idu>>
+            /\ UNCHANGED <<st, msk, nsid, nid, mpks, usk, users, nuid, encs, lnk, idu, saved>>
        ELSE /\ st' = [st EXCEPT ![d].attrs[Find(st[d].attrs, n)].a = FALSE]
             /\ Couple(DisableV(g, d, n), "ok", Disable(g, d, n), {"C09"})
-            /\ UNCHANGED <<msk, nsid, nid, mpks, usk, users, nuid, encs, lnk, idu>>
+            /\ UNCHANGED <<msk, nsid, nid, mpks, usk, users, nuid, encs, lnk, idu, saved>>
 
 (***************************************************************************)
 (* update_msk (with its validation before take(), commit 04187ba)          *)
@@ -246,7 +247,7 @@ UpdateA ==
                IN
                IF \E r \in DOMAIN om : ~pick[r].a /\ r \notin DOMAIN msk
                THEN /\ Couple(v, "err", g, {"C09"})
-                    /\ UNCHANGED <<st, msk, nsid, nid, mpks, usk, users, nuid, encs, lnk, idu>>
+                    /\ UNCHANGED <<st, msk, nsid, nid, mpks, usk, users, nuid, encs, lnk, idu, saved>>
                ELSE LET new == SeqOfSet(DOMAIN om \ DOMAIN msk)
                         m2 == [r \in DOMAIN om |->
                                  IF r \in DOMAIN msk
@@ -262,7 +263,7 @@ UpdateA ==
                        /\ mpks' = Append(mpks, MMpk(m2, st))
                        /\ lnk' = IF v # "err" THEN lnk \cup LinkNew(m2, gn, newpairs) ELSE lnk
                        /\ Couple(v, "ok", gn, {"C09", "C10"})
-                       /\ UNCHANGED <<st, nid, usk, users, nuid, encs, idu>>
+                       /\ UNCHANGED <<st, nid, usk, users, nuid, encs, idu, saved>>
 
 (***************************************************************************)
 (* rekey (validates all rights first, commit 1093408; keeps the activation *)
@@ -274,7 +275,7 @@ RekeyA(pol) ==
     /\ LET v == RekeyV(g, pol)
        IN IF ~UskPolOk(st, pol) \/ ~(UskRights(st, pol) \subseteq DOMAIN msk)
           THEN /\ Couple(v, "err", g, {"C09"})
-               /\ UNCHANGED <<st, msk, nsid, nid, mpks, usk, users, nuid, encs, lnk, idu>>
+               /\ UNCHANGED <<st, msk, nsid, nid, mpks, usk, users, nuid, encs, lnk, idu, saved>>
           ELSE LET R == SeqOfSet(UskRights(st, pol))
                    m2 == [r \in DOMAIN msk |->
                             IF Pos(R, r) > 0
@@ -290,7 +291,7 @@ RekeyA(pol) ==
                   /\ mpks' = Append(mpks, MMpk(m2, st))
                   /\ lnk' = IF v = "ok" THEN lnk \cup LinkNew(m2, gn, pairs) ELSE lnk
                   /\ Couple(v, "ok", gn, {"C09"})
-                  /\ UNCHANGED <<st, nid, usk, users, nuid, encs, idu>>
+                  /\ UNCHANGED <<st, nid, usk, users, nuid, encs, idu, saved>>
 
 PruneA(pol) ==
     /\ On("Prune")
@@ -298,14 +299,14 @@ PruneA(pol) ==
     /\ LET v == PruneV(g, pol)
        IN IF ~UskPolOk(st, pol)
           THEN /\ Couple(v, "err", g, {"C09"})
-               /\ UNCHANGED <<st, msk, nsid, nid, mpks, usk, users, nuid, encs, lnk, idu>>
+               /\ UNCHANGED <<st, msk, nsid, nid, mpks, usk, users, nuid, encs, lnk, idu, saved>>
           ELSE LET R == UskRights(st, pol)
                    m2 == [r \in DOMAIN msk |-> IF r \in R THEN <<msk[r][1]>> ELSE msk[r]]
                IN /\ Len(mpks) < MaxMpk
                   /\ msk' = m2
                   /\ mpks' = Append(mpks, MMpk(m2, st))
                   /\ Couple(v, "ok", Prune(g, pol), {"C09"})
-                  /\ UNCHANGED <<st, nsid, nid, usk, users, nuid, encs, lnk, idu>>
+                  /\ UNCHANGED <<st, nsid, nid, usk, users, nuid, encs, lnk, idu, saved>>
 
 (***************************************************************************)
 (* usk_keygen / refresh                                                    *)
@@ -317,14 +318,14 @@ KeyGenA(u, pol) ==
     /\ LET v == KeyGenV(g, pol)
        IN IF ~UskPolOk(st, pol) \/ ~(UskRights(st, pol) \subseteq DOMAIN msk)
           THEN /\ Couple(v, "err", g, {"C09"})
-               /\ UNCHANGED <<st, msk, nsid, nid, mpks, usk, users, nuid, encs, lnk, idu>>
+               /\ UNCHANGED <<st, msk, nsid, nid, mpks, usk, users, nuid, encs, lnk, idu, saved>>
           ELSE LET R == SeqOfSet(UskRights(st, pol))
                IN /\ usk' = usk @@ (u :> [id |-> nuid,
                                           ch |-> [i \in 1..Len(R) |-> [r |-> R[i], c |-> <<[sid |-> msk[R[i]][1].sid, h |-> msk[R[i]][1].h]>>]]])
                   /\ users' = users \cup {nuid}
                   /\ nuid' = nuid + 1
                   /\ Couple(v, "ok", KeyGen(g, u, pol), {"C09"})
-                  /\ UNCHANGED <<st, msk, nsid, nid, mpks, encs, lnk, idu>>
+                  /\ UNCHANGED <<st, msk, nsid, nid, mpks, encs, lnk, idu, saved>>
 
 \* refresh_coordinate_keys on one chain (after commit c766bd3)
 Strip(ch) == [i \in 1..Len(ch) |-> [sid |-> ch[i].sid, h |-> ch[i].h]]
@@ -347,7 +348,7 @@ RefreshA(u, keep) ==
        IN IF usk[u].id \notin users
              \/ ("nokeep_fails" \in Mut /\ ~keep /\ \E i \in 1..Len(usk[u].ch) : usk[u].ch[i].r \notin DOMAIN msk)
           THEN /\ Couple(v, "err", g, {"C09", "C17"})
-               /\ UNCHANGED <<st, msk, nsid, nid, mpks, usk, users, nuid, encs, lnk, idu>>
+               /\ UNCHANGED <<st, msk, nsid, nid, mpks, usk, users, nuid, encs, lnk, idu, saved>>
           ELSE LET live == SelectSeq(usk[u].ch, LAMBDA c : c.r \in DOMAIN msk)
                    ch2 == [k \in 1..Len(live) |->
                              [r |-> live[k].r,
@@ -355,7 +356,7 @@ RefreshA(u, keep) ==
                                     ELSE <<[sid |-> msk[live[k].r][1].sid, h |-> msk[live[k].r][1].h]>>]]
                IN /\ usk' = [usk EXCEPT ![u].ch = ch2]
                   /\ Couple(v, "ok", Refresh(g, u, keep, UsableToks(u)), {"C09"})
-                  /\ UNCHANGED <<st, msk, nsid, nid, mpks, users, nuid, encs, lnk, idu>>
+                  /\ UNCHANGED <<st, msk, nsid, nid, mpks, users, nuid, encs, lnk, idu, saved>>
 
 CloneA(u, from) ==
     /\ On("Clone")
@@ -364,7 +365,7 @@ CloneA(u, from) ==
     /\ usk' = usk @@ (u :> usk[from])
     /\ g' = CloneUsk(g, u, from)
     /\ res' = "ok"
-    /\ UNCHANGED <<st, msk, nsid, nid, mpks, users, nuid, encs, lnk, idu, bad>>
+    /\ UNCHANGED <<st, msk, nsid, nid, mpks, users, nuid, encs, lnk, idu, bad, saved>>
 
 (***************************************************************************)
 (* encaps / recaps                                                         *)
@@ -381,12 +382,12 @@ EncapsA(e, k, pol) ==
            tags == {"C09"} \cup (IF v = "err" THEN {"C06"} ELSE {})
        IN IF ~ok
           THEN /\ Couple(v, "err", g, tags)
-               /\ UNCHANGED <<st, msk, nsid, nid, mpks, usk, users, nuid, encs, lnk, idu>>
+               /\ UNCHANGED <<st, msk, nsid, nid, mpks, usk, users, nuid, encs, lnk, idu, saved>>
           ELSE LET R == EncRights(S, pol)
                IN /\ encs' = encs @@ (e :> [tg |-> {[r |-> r, sid |-> mpks[k].keys[r].sid] : r \in R},
                                             h |-> \A r \in R : mpks[k].keys[r].h])
                   /\ Couple(v, "ok", Encaps(g, e, k, pol), tags)
-                  /\ UNCHANGED <<st, msk, nsid, nid, mpks, usk, users, nuid, lnk, idu>>
+                  /\ UNCHANGED <<st, msk, nsid, nid, mpks, usk, users, nuid, lnk, idu, saved>>
 
 \* full_decaps: rights having an ACTIVATED secret (any position) that opens the encapsulation
 FullDecapsRights(e) ==
@@ -402,11 +403,11 @@ RecapsA(e2, k, e) ==
            R == {r \in FullDecapsRights(e) : r \in DOMAIN mpks[k].keys}    \* commit b50919f
        IN IF R = {} \/ ("recaps_unpublished_fails" \in Mut /\ R # FullDecapsRights(e))
           THEN /\ Couple(v, "err", g, {"C09", "C18"})
-               /\ UNCHANGED <<st, msk, nsid, nid, mpks, usk, users, nuid, encs, lnk, idu>>
+               /\ UNCHANGED <<st, msk, nsid, nid, mpks, usk, users, nuid, encs, lnk, idu, saved>>
           ELSE /\ encs' = encs @@ (e2 :> [tg |-> {[r |-> r, sid |-> mpks[k].keys[r].sid] : r \in R},
                                           h |-> \A r \in R : mpks[k].keys[r].h])
                /\ Couple(v, "ok", Recaps(g, e2, k, e), {"C09", "C18"})
-               /\ UNCHANGED <<st, msk, nsid, nid, mpks, usk, users, nuid, lnk, idu>>
+               /\ UNCHANGED <<st, msk, nsid, nid, mpks, usk, users, nuid, lnk, idu, saved>>
 
 (***************************************************************************)
 (* Serialization round trip of any object: a stutter on the abstract state *)
@@ -416,7 +417,41 @@ RoundTripA ==
     /\ On("RoundTrip")
     /\ last' = [op |-> "roundtrip", obj |-> "msk"]
     /\ res' = "ok"
-    /\ UNCHANGED <<st, msk, nsid, nid, mpks, usk, users, nuid, encs, lnk, idu, g, bad>>
+    /\ UNCHANGED <<st, msk, nsid, nid, mpks, usk, users, nuid, encs, lnk, idu, g, bad, saved>>
+
+(***************************************************************************)
+(* Snapshot / restore of the serialized master key (one slot): the honest  *)
+(* way to meet "valid MAC, identifier unknown to the master key" (C17).    *)
+(* The access structure travels with the master key.                       *)
+(***************************************************************************)
+SaveA ==
+    /\ On("Save")
+    /\ saved = <<>>
+    /\ last' = [op |-> "save_msk", slot |-> "s1"]
+    /\ saved' = <<[st |-> st, msk |-> msk, users |-> users]>>
+    /\ g' = SaveMsk(g, "s1")
+    /\ res' = "ok"
+    /\ UNCHANGED <<st, msk, nsid, nid, mpks, usk, users, nuid, encs, lnk, idu, bad>>
+
+RestoreA ==
+    /\ On("Restore")
+    /\ saved # <<>>
+    /\ last' = [op |-> "restore_msk", slot |-> "s1"]
+    /\ st' = saved[1].st
+    /\ msk' = saved[1].msk
+    /\ users' = saved[1].users
+    /\ g' = RestoreMsk(g, "s1")
+    /\ res' = "ok"
+    /\ UNCHANGED <<nsid, nid, mpks, usk, nuid, encs, lnk, idu, bad, saved>>
+
+DropUskA(u) ==
+    /\ On("DropUsk")
+    /\ u \in DOMAIN usk
+    /\ last' = [op |-> "drop_usk", u |-> u]
+    /\ usk' = Without(usk, {u})
+    /\ g' = DropUsk(g, u)
+    /\ res' = "ok"
+    /\ UNCHANGED <<st, msk, nsid, nid, mpks, users, nuid, encs, lnk, idu, bad, saved>>
 
 Past == pc > Len(Script) /\ pc' = pc
 ObsUpd == obs' = ObsOf(usk', encs')
@@ -441,6 +476,9 @@ Free ==
     \/ \E e \in EncIds, k \in 1..MaxMpk, p \in Pols : Past /\ EncapsA(e, k, p) /\ ObsUpd
     \/ \E e2 \in EncIds, e \in EncIds, k \in 1..MaxMpk : Past /\ RecapsA(e2, k, e) /\ ObsUpd
     \/ Past /\ RoundTripA /\ ObsUpd
+    \/ Past /\ SaveA /\ ObsUpd
+    \/ Past /\ RestoreA /\ ObsUpd
+    \/ \E u \in Users : Past /\ DropUskA(u) /\ ObsUpd
 
 Scripted(a) ==
     CASE a.op = "add_dim" -> AddDimA(a.d)
@@ -494,9 +532,9 @@ PruneLeavesNewestStep ==
     (last'.op = "prune" /\ res' = "ok") =>
         \A r \in UskRights(st, last'.pol) \cap DOMAIN msk : Len(msk'[r]) = 1 /\ msk'[r][1] = msk[r][1]
 \* C10: a failing call changes neither the master key nor any user key
-FailUnchangedStep == res' = "err" => UNCHANGED <<msk, usk, users>>
+FailUnchangedStep == res' = "err" => UNCHANGED <<msk, usk, users, saved>>
 \* C13: a round trip changes nothing
-RoundTripStep == last'.op = "roundtrip" => UNCHANGED <<st, msk, usk, users, mpks, encs, g>>
+RoundTripStep == last'.op = "roundtrip" => UNCHANGED <<st, msk, usk, users, mpks, encs, g, saved>>
 \* C16: every secret created by a call is new
 FreshStep == nsid' >= nsid /\ \A r \in DOMAIN msk' : \A i \in 1..Len(msk'[r]) :
                  (r \notin DOMAIN msk \/ msk'[r][i].sid \notin ChainSids(msk[r])) => msk'[r][i].sid >= nsid
